@@ -623,13 +623,50 @@ func TestVerif_C15_hdrs(t *testing.T) {
 		c               *Client
 		n               int
 	}
+	type shaped struct {
+		c      *Client
+		sh     c15Shape
+		tw, cw int
+	}
 	dims := []dim{
 		{"h1", "http://" + peers.h1.Addr().String(), "slots", false, C().SetTimeout(20 * time.Second), verifh.N(100, 1500)},
 		{"h2", "http://" + peers.h2.Addr().String(), "slots", true, C().SetTimeout(20 * time.Second).EnableH2C().EnableForceHTTP2(), verifh.N(160, 2500)},
 		{"h3", "https://" + peers.h3.Addr().String(), "add", true, C().SetTimeout(20 * time.Second).EnableInsecureSkipVerify().EnableForceHTTP3(), verifh.N(100, 1500)},
 	}
 	for _, d := range dims {
+		// per protocol: the plain client and three clients with middleware (the path the response travels)
+		pool := []shaped{{c: d.c}}
+		for k := 0; k < 3; k++ {
+			sh := c15GenShape(r, d.how == "h1")
+			for len(sh.ops) == 0 {
+				sh = c15GenShape(r, d.how == "h1")
+			}
+			switch k { // every protocol sees both kinds of middleware
+			case 0:
+				sh.ops = append(sh.ops, "twf")
+			case 1:
+				sh.ops = append(sh.ops, "cw")
+			}
+			var base *Client
+			switch d.how {
+			case "h1":
+				base = C().SetTimeout(20 * time.Second)
+			case "h2":
+				base = C().SetTimeout(20 * time.Second).EnableH2C().EnableForceHTTP2()
+			default:
+				base = C().SetTimeout(20 * time.Second).EnableInsecureSkipVerify().EnableForceHTTP3()
+			}
+			use, tw, cw := c15ApplyShape(base, sh)
+			if use != base {
+				defer c15CloseClient(base)
+			}
+			defer c15CloseClient(use)
+			pool = append(pool, shaped{use, sh, tw, cw})
+		}
 		for i := 0; i < d.n; i++ {
+			pc := verifh.Pick(r, pool)
+			d.c = pc.c
+			c15CountShape(cnt.count, pc.sh, pc.tw, pc.cw)
 			next++
 			c := c15GenHdrCase(r, strconv.Itoa(next), d.lower)
 			peers.mu.Lock()
@@ -644,7 +681,7 @@ func TestVerif_C15_hdrs(t *testing.T) {
 				}
 			}
 			c15Reconfigure(d.c, &st, first)
-			human := fmt.Sprintf("%s peer: %d fields %s body=%s settings=%s", d.how, len(c.fields), c15FieldsHuman(c.fields), c15Short(c.body), st.kind)
+			human := fmt.Sprintf("%s peer: stack=%s %d fields %s body=%s settings=%s", d.how, pc.sh, len(c.fields), c15FieldsHuman(c.fields), c15Short(c.body), st.kind)
 			s.Begin("hdrs/"+d.how+"/"+c.id, human)
 			var hdr http.Header
 			var got []byte
@@ -673,6 +710,7 @@ func TestVerif_C15_hdrs(t *testing.T) {
 				mech = fmt.Sprintf("slots:%d", len(c.fields)+1)
 			}
 			line, impl, ok, why, nt := c15HdrJudge(c, mech, &st, hdr, string(got), term, "", "wire")
+			line += fmt.Sprintf(" %d,%d", pc.tw, pc.cw)
 			if term != "eof" {
 				impl += " " + term
 			}
@@ -681,9 +719,9 @@ func TestVerif_C15_hdrs(t *testing.T) {
 			}
 			s.Case(line, impl, ok, "", nt, human)
 		}
-		c15CloseClient(d.c)
+		c15CloseClient(pool[0].c)
 	}
-	cnt.must(t, "content-type-inside-a-repeated-header", "content-type-fields:0", "content-type-fields:2", "fields:>50",
+	cnt.must(t, "path:plain", "path:transport-middleware", "path:client-middleware", "content-type-inside-a-repeated-header", "content-type-fields:0", "content-type-fields:2", "fields:>50",
 		"path:unit-h1-reader", "path:h1-peer", "path:h2-peer", "path:h3-peer")
 	s.Finish()
 }
